@@ -2,7 +2,10 @@ package main
 
 import (
 	"fmt"
+	"os"
 	"strings"
+	"sync"
+	"time"
 
 	"github.com/goatcms/goatcore/filesystem"
 	"github.com/goatcms/goatcore/filesystem/filespace/memfs"
@@ -33,24 +36,227 @@ type histResult struct {
 	sig   string
 }
 
+// ---------- the caller's side of the snapshot clause, and views that live as long as the history
+
+// scribbleInfo is what the harness writes over every listing it was handed: if the implementation
+// still looks at that slice, a node named like this shows up in its tree.
+type scribbleInfo struct{}
+
+func (scribbleInfo) Name() string       { return "scribbled-by-caller" }
+func (scribbleInfo) Size() int64        { return 7 }
+func (scribbleInfo) Mode() os.FileMode  { return 0 }
+func (scribbleInfo) ModTime() time.Time { return time.Time{} }
+func (scribbleInfo) IsDir() bool        { return false }
+func (scribbleInfo) Sys() interface{}   { return nil }
+
+type keptListing struct {
+	where string
+	infos []os.FileInfo // the very slice the implementation handed out
+	snap  []Ent         // what it said when it was handed out
+}
+
+// c01Env is the caller of one history: it HOLDS the child views it created (a view is used again by
+// later operations of the same history: the property speaks of operations "through a child view",
+// not of views made afresh for every call), it keeps or overwrites every listing it is handed, and
+// it checks the names of Lstat results.
+type c01Env struct {
+	mu    sync.Mutex // an operation or walk that timed out leaves its goroutine behind: it may still call in
+	dead  bool       // set when the history is over (or was given up): late calls do nothing
+	rng   *RNG
+	root  filesystem.Filespace
+	held  map[string]filesystem.Filespace // canonical chain -> view object created earlier in this history
+	lists []keptListing
+	fail  string
+	sig   string
+	stats map[string]int
+}
+
+func newC01Env(rng *RNG, root filesystem.Filespace) *c01Env {
+	return &c01Env{rng: rng, root: root, held: map[string]filesystem.Filespace{}, stats: map[string]int{}}
+}
+
+// close ends the history: the counters go to the run's statistics, late callers find the env dead.
+func (e *c01Env) close(stats map[string]int) {
+	e.mu.Lock()
+	defer e.mu.Unlock()
+	e.dead = true
+	for k, v := range e.stats {
+		stats[k] += v
+	}
+}
+
+func (e *c01Env) setFail(sig, msg string) { // callers hold e.mu
+	if e.fail == "" {
+		e.fail, e.sig = msg, sig
+	}
+}
+
+func (e *c01Env) failure() (string, string) {
+	e.mu.Lock()
+	defer e.mu.Unlock()
+	return e.fail, e.sig
+}
+
+// resolve follows the chain; a view object made earlier for the same (canonical) chain is used again
+// in 3 of 4 cases, otherwise a new one is made - by Filespace(b) or by the exported constructor
+// NewFilespaceWrapper around the parent view (a wrapper of a wrapper instead of a flattened one).
+func (e *c01Env) resolve(chain []string) (fs filesystem.Filespace, ok bool) {
+	e.mu.Lock()
+	defer e.mu.Unlock()
+	if e.dead {
+		return nil, false
+	}
+	fs = e.root
+	key := ""
+	for _, b := range chain {
+		c, climbs := refNorm(b)
+		key += "\x00" + strings.Join(c, "/")
+		if h, have := e.held[key]; have && !climbs && e.rng.Chance(75) {
+			fs = h
+			e.stats["held_view_reused"]++
+			continue
+		}
+		var child filesystem.Filespace
+		var err error
+		if e.rng.Chance(20) {
+			child, err = memfs.NewFilespaceWrapper(fs, b)
+			e.stats["view_by_constructor"]++
+		} else {
+			child, err = fs.Filespace(b)
+		}
+		if err != nil || child == nil {
+			return nil, false
+		}
+		if !climbs {
+			e.held[key] = child
+		}
+		fs = child
+	}
+	return fs, true
+}
+
+func (e *c01Env) exec(op FsOp) FsOut {
+	return withTimeout(10*time.Second, func() FsOut {
+		fs, ok := e.resolve(op.View)
+		if !ok {
+			return FsOut{Kind: "err", Msg: "view creation failed"}
+		}
+		return execOn(c01FS{innerFS: fs, env: e, view: op.View}, op)
+	})
+}
+
+// noteListing: the slice handed out by ReadDir now belongs to the caller. Half of them are
+// overwritten at once (so a second caller that is handed the same storage sees it), the others are
+// kept and must still say the same after every later operation; they are overwritten at the end.
+func (e *c01Env) noteListing(where string, infos []os.FileInfo) {
+	e.mu.Lock()
+	defer e.mu.Unlock()
+	if e.dead {
+		return
+	}
+	snap := make([]Ent, len(infos))
+	for i, in := range infos {
+		if in == nil {
+			e.setFail("alias:list", where+": the listing contains a nil entry")
+			return
+		}
+		snap[i] = Ent{Name: in.Name(), IsDir: in.IsDir()}
+	}
+	e.stats["listings_handed_out"]++
+	if len(infos) == 0 {
+		return
+	}
+	if len(e.lists) < 48 && e.rng.Chance(50) {
+		e.lists = append(e.lists, keptListing{where: where, infos: infos, snap: snap})
+		return
+	}
+	scribbleListing(infos)
+}
+
+func scribbleListing(infos []os.FileInfo) {
+	ext := infos[:cap(infos)] // the spare capacity was handed out with the slice (append by the caller)
+	for i := range ext {
+		ext[i] = scribbleInfo{}
+	}
+}
+
+// checkKept: a listing handed out earlier still names the same entries.
+func (e *c01Env) checkKept(after string) {
+	e.mu.Lock()
+	defer e.mu.Unlock()
+	for _, k := range e.lists {
+		for i, in := range k.infos {
+			if in == nil || in.Name() != k.snap[i].Name || in.IsDir() != k.snap[i].IsDir {
+				now := "nil"
+				if in != nil {
+					now = fmt.Sprintf("%q", in.Name())
+				}
+				e.setFail("alias:list", fmt.Sprintf("%s: entry %d of the listing handed out earlier was %q, after %s it is %s", k.where, i, k.snap[i].Name, after, now))
+				return
+			}
+		}
+	}
+}
+
+// c01FS stands between the executor / tree walker and memfs: same 16 operations, but listings go
+// through noteListing (the walker works on a private copy) and Lstat results are asked for their name.
+type innerFS = filesystem.Filespace
+
+type c01FS struct {
+	innerFS
+	env  *c01Env
+	view []string
+}
+
+func (f c01FS) ReadDir(p string) ([]os.FileInfo, error) {
+	if strings.Count(p, "/") > 300 {
+		// no history creates anything that deep: a directory that contains itself. Refusing here ends
+		// the tree walk ("walk failed") before it eats the memory of the process.
+		return nil, fmt.Errorf("the tree is more than 300 levels deep (a directory reachable from itself?)")
+	}
+	infos, err := f.innerFS.ReadDir(p)
+	if err != nil {
+		return infos, err
+	}
+	mine := make([]os.FileInfo, len(infos))
+	copy(mine, infos)
+	f.env.noteListing(fmt.Sprintf("ReadDir(%q) via view %q", p, f.view), infos)
+	return mine, nil
+}
+
+func (f c01FS) Lstat(p string) (os.FileInfo, error) {
+	info, err := f.innerFS.Lstat(p)
+	if err == nil && info != nil {
+		if c, climbs := refNorm(p); !climbs && len(c) > 0 && info.Name() != c[len(c)-1] {
+			f.env.mu.Lock()
+			defer f.env.mu.Unlock()
+			f.env.setFail("contract:Lstat", fmt.Sprintf("Lstat(%q) via view %q describes a node named %q", p, f.view, info.Name()))
+		}
+	}
+	return info, err
+}
+
 // runHistory executes ops on fs, checking every step against the plain tree (L2) with `pol`.
-func runHistory(root filesystem.Filespace, ref *RefFS, pol RefPolicy, ops []FsOp, walkEvery bool) histResult {
+func runHistory(rng *RNG, root filesystem.Filespace, ref *RefFS, pol RefPolicy, ops []FsOp, walkEvery bool, stats map[string]int) histResult {
 	hr := histResult{ops: ops}
+	env := newC01Env(rng, root)
+	defer env.close(stats)
+	wroot := c01FS{innerFS: root, env: env}
 	type kept struct {
 		path string
 		data []byte
 		copy []byte
 	}
 	var keptReads []kept
-	type keptList struct {
-		names []string
-		infos []Ent
-	}
+	stopped := false
 	for i, op := range ops {
-		o := execFsOp(root, op)
+		o := env.exec(op)
 		returned := o.Data // the slice the implementation handed out (mutated at the end: snapshot clause)
 		o.Data = append([]byte{}, o.Data...)
 		hr.outs = append(hr.outs, o)
+		if o.Kind == "hang" || o.Kind == "panic" {
+			stopped = true
+		}
 		var w []WalkEnt
 		if hr.fail == "" {
 			base, vok := viewBase(op.View)
@@ -67,13 +273,17 @@ func runHistory(root filesystem.Filespace, ref *RefFS, pol RefPolicy, ops []FsOp
 				keptReads = append(keptReads, kept{path: op.P, data: returned, copy: o.Data})
 			}
 		}
+		if stopped {
+			break
+		}
 		if hr.fail == "" && (walkEvery || (isMutating(op.Kind) && o.Kind == "unit")) {
 			var ok bool
 			var why string
-			w, ok, why = walkFs(root)
+			w, ok, why = walkFs(wroot)
 			if !ok {
 				hr.fail = fmt.Sprintf("step %d: tree walk failed: %s", i, why)
 				hr.sig = "walk"
+				stopped = true // the tree cannot be observed any more (the walker may still be running)
 			} else if ph := phantomNames(w); ph != "" {
 				hr.fail = fmt.Sprintf("step %d: %s", i, ph)
 				hr.sig = "phantom"
@@ -85,36 +295,60 @@ func runHistory(root filesystem.Filespace, ref *RefFS, pol RefPolicy, ops []FsOp
 		} else {
 			hr.walks = append(hr.walks, nil)
 		}
-		if o.Kind == "hang" || o.Kind == "panic" {
+		if stopped {
 			break
 		}
-	}
-	if len(hr.outs) == len(ops) {
-		w, ok, why := walkFs(root)
-		hr.final = w
+		// snapshot clause, implementation side: what was handed out earlier still says the same
 		if hr.fail == "" {
-			if !ok {
-				hr.fail = "final tree walk failed: " + why
-				hr.sig = "walk"
-			} else if eq, why := walkEqual(w, ref.Walk()); !eq {
-				hr.fail = "final tree differs from the plain tree model: " + why
-				hr.sig = "tree:final"
+			env.checkKept(fmt.Sprintf("step %d %s(%q,%q)", i, op.Kind, op.P, op.Q))
+			hr.fail, hr.sig = env.failure()
+			for _, k := range keptReads {
+				if hr.fail == "" && string(k.data) != string(k.copy) {
+					hr.fail = fmt.Sprintf("the bytes returned by ReadFile(%q) changed after step %d %s(%q,%q)", k.path, i, op.Kind, op.P, op.Q)
+					hr.sig = "alias:read"
+				}
 			}
 		}
 	}
-	// snapshot clause, part 1: mutate every slice we were handed, then the files must be unchanged
-	if hr.fail == "" && len(keptReads) > 0 {
+	if stopped {
+		return hr // the executor's goroutine may still be running: nothing more is asked of this filespace
+	}
+	w, ok, why := walkFs(wroot)
+	hr.final = w
+	if hr.fail == "" {
+		if !ok {
+			hr.fail = "final tree walk failed: " + why
+			hr.sig = "walk"
+		} else if eq, why := walkEqual(w, ref.Walk()); !eq {
+			hr.fail = "final tree differs from the plain tree model: " + why
+			hr.sig = "tree:final"
+		} else {
+			hr.fail, hr.sig = env.failure()
+		}
+	}
+	// snapshot clause, caller side: overwrite everything we were handed, then the tree must be unchanged
+	if hr.fail == "" && ok {
+		env.checkKept("the end of the history")
 		for _, k := range keptReads {
 			for i := range k.data {
 				k.data[i] ^= 0xff
 			}
 		}
-		w, ok, _ := walkFs(root)
-		if ok {
-			if eq, why := walkEqual(w, ref.Walk()); !eq {
-				hr.fail = "mutating slices returned by ReadFile changed the stored tree: " + why
-				hr.sig = "alias:read"
-			}
+		env.mu.Lock()
+		for _, k := range env.lists {
+			scribbleListing(k.infos)
+		}
+		env.lists = nil
+		env.mu.Unlock()
+		w, ok, why := walkFs(wroot)
+		if f, sg := env.failure(); f != "" {
+			hr.fail, hr.sig = f, sg
+		} else if !ok {
+			hr.fail = "overwriting the slices and listings handed out earlier broke the tree walk: " + why
+			hr.sig = "alias:out"
+		} else if eq, why := walkEqual(w, ref.Walk()); !eq {
+			hr.fail = "overwriting the slices and listings handed out earlier changed the stored tree: " + why
+			hr.sig = "alias:out"
 		}
 	}
 	return hr
@@ -144,37 +378,190 @@ func histKey(ops []FsOp) string {
 	return sb.String()
 }
 
+// ---------- C01's own additions to the shared operation generator
+
+// oddNames: "a" and "b" together with names a careless normalisation would fold onto them (case,
+// blanks, control characters, bytes that are not UTF-8, a backslash), names made of dots that are
+// NOT "." or "..", the name the root directory has internally. Every one of them is an ordinary
+// name of the tree model. One history in 15 also has a name longer than any host file system allows.
+func oddNames() []string {
+	return []string{"a", "b", "A", "a ", " a", "a\x01", "a\x7f", "\xffa", "\xfea", "a\xcc\x81", "a\\", "a\\b", "a:b",
+		"...", "..a", "a..", "ROOT", "~", "*", "b ", "B"}
+}
+
+var c01ChunkSizes = []int{0, 1, 41, 63, 64, 65, 255, 256, 257, 511, 512, 513, 600, 1024, 1025, 1500, 2049}
+
+func randBytes(r *RNG, n int) []byte {
+	b := make([]byte, n)
+	for i := range b {
+		b[i] = byte(r.Next())
+	}
+	return b
+}
+
+// respell applies one more spelling feature to a raw path string (the model is fed the same string,
+// so nothing has to be preserved): combinations of features and shapes spell() does not produce
+// (two consecutive inner "..", a trailing "x/..", ".//", "//" at either end).
+func respell(r *RNG, p string) string {
+	switch r.Intn(9) {
+	case 0:
+		return "/" + p
+	case 1:
+		return "./" + p
+	case 2:
+		return ".//" + p
+	case 3:
+		return p + "//"
+	case 4:
+		return p + "/x/.."
+	case 5:
+		return p + "/x/y/../.."
+	case 6:
+		return p + "/./"
+	case 7:
+		if i := strings.Index(p, "/"); i >= 0 {
+			return p[:i] + "/x/y/../../" + p[i+1:]
+		}
+		return "x/../" + p
+	}
+	return strings.Replace(p, "/", "/.//", 1)
+}
+
+// c01Tweak widens what the shared generator draws: contents nobody else wrote (so that a file that
+// shows another file's bytes is seen), combined spellings, chains of up to 6 views and - in the
+// histories of at most 8 operations (`big`: the content is written into the Coq case once per tree
+// walk) - stream chunks around and above the sizes at which buffers grow and readers with big buffers.
+func c01Tweak(r *RNG, g *FsGen, op *FsOp, big bool, files, dirs [][]string) {
+	// queries and copy sources: half of them are aimed at a node of the right kind that exists NOW
+	// (otherwise nine reads in ten fail and the snapshot clause is exercised on a few dozen slices only)
+	aim := func(pool [][]string) {
+		if len(pool) == 0 || !r.Chance(50) {
+			return
+		}
+		c := pool[r.Intn(len(pool))]
+		op.View = nil
+		if len(c) > 1 && r.Chance(35) {
+			i := 1 + r.Intn(len(c)-1)
+			op.View = []string{g.spell(r, c[:i])}
+			c = c[i:]
+		}
+		op.P = g.spell(r, c)
+	}
+	switch op.Kind {
+	case "ReadFile", "Reader", "CopyFile", "IsFile", "Lstat":
+		aim(files)
+	case "ReadDir", "CopyDir", "IsDir":
+		aim(dirs)
+	}
+	switch op.Kind {
+	case "WriteFile":
+		if r.Chance(30) {
+			op.Data = randBytes(r, r.Intn(48))
+		} else if big && r.Chance(5) {
+			op.Data = randBytes(r, 600+r.Intn(1000))
+		}
+	case "Writer":
+		if big && r.Chance(25) {
+			op.Chunks = nil
+			for n := 1 + r.Intn(3); n > 0; n-- {
+				op.Chunks = append(op.Chunks, randBytes(r, c01ChunkSizes[r.Intn(len(c01ChunkSizes))]))
+			}
+		}
+	case "Reader":
+		if big && r.Chance(40) { // no nat literal above 5000 is written for Coq
+			op.Bufs = []int{[]int{1, 7, 64, 512, 513, 2048}[r.Intn(6)], 4999, 4999}
+		}
+	}
+	if r.Chance(12) {
+		op.P = respell(r, op.P)
+	}
+	if op.Q != "" && r.Chance(12) {
+		op.Q = respell(r, op.Q)
+	}
+	if len(op.View) > 0 && r.Chance(10) { // identity views in front of / inside the chain: same base, more depth
+		id := []string{".", "", "/", "x/..", "./"}
+		for n := 1 + r.Intn(3); n > 0; n-- {
+			at := r.Intn(len(op.View) + 1)
+			v := append([]string{}, op.View[:at]...)
+			v = append(v, id[r.Intn(len(id))])
+			op.View = append(v, op.View[at:]...)
+		}
+	}
+	op.fillJSON()
+}
+
 func runC01(o *Out, rng *RNG, tier string, replay string) {
 	o.Imports = "From GC Require Import Common.Base Model.Paths Model.Fs Corr.FsCorr Corr.C01."
 	o.CaseType = "case"
 	o.CheckFn = "check"
 	o.ShardSize = 40
-	o.Rule = "histories of 1-30 of the 16 Filespace operations on a fresh memfs (names a-d, depth<=3, 8 spellings per path incl. ./x, x/, /x, a//b, inner .., /./, trailing /., plus a pool of root-addressing/climbing/odd paths), 30% of the operations through 1-3 nested child views; after every successful mutation and at the end the whole tree is walked (ReadDir+ReadFile). Each step is checked against the Go plain-tree reference (L2) and the whole history against the Coq model (L1). Non-trivial: at least one successful mutation; distinct by the operation sequence."
+	o.Rule = "histories of 1-30 of the 16 Filespace operations on a fresh memfs (names a-d and prefix/dot look-alikes, every third history over a pool of odd names: case, blanks, control and non-UTF-8 bytes, backslash, dots; one history in 15 with a name of 260 bytes; depth<=3; 8 spellings per path incl. ./x, x/, /x, a//b, inner .., /./, trailing /., combined once more in 12%, plus a pool of root-addressing/climbing/odd paths; contents from a pool and random ones, in histories of at most 8 operations stream chunks of 0-2049 bytes and contents up to 1600 bytes), 30% of the operations through 1-6 nested child views that are HELD and used again by later operations of the same history (made by Filespace or by NewFilespaceWrapper); every listing handed out is kept (must not change) or overwritten at once; after every successful mutation and at the end the whole tree is walked (ReadDir+ReadFile). Plus 6 histories on one directory of 20-140 entries / one chain of 12-33 nested directories, 104 histories that write, read, copy and rewrite one file of 0 to 100 001 bytes (L2 only), and the small-scope sweep: every path of up to 4 (thorough: 5) segments over {a, b, ., .., empty} as the argument of every operation kind (copies: as source and as destination) in one history per path, directly and through a view. Each step is checked against the Go plain-tree reference (L2) and the whole history against the Coq model (L1; one sweep history in 6). Non-trivial: at least one successful mutation; distinct by the operation sequence."
 	gen := defaultFsGen()
+	oddGen := defaultFsGen()
+	oddGen.Names = oddNames()
+	longGen := defaultFsGen()
+	longGen.Names = append(oddNames()[:6], strings.Repeat("n", 260))
 	n := 900
 	if tier == "thorough" {
 		n = 6000
 	}
 	aliasList := 0
+	hangs := 0
 	only := replayIndex(replay)
 	for i := 0; i < n; i++ {
 		r := rng.Fork()
 		if only >= 0 && i != only {
 			continue
 		}
+		if hangs >= 3 {
+			break // every further history would wait for the same time-out; the failures are reported
+		}
 		ln := 1 + r.Intn(30)
 		if r.Chance(15) {
 			ln = 1 + r.Intn(4)
 		}
+		g := gen
+		if i%15 == 14 {
+			g = longGen
+			o.Stat("long_name_histories")
+		} else if i%3 == 2 {
+			g = oddGen
+			o.Stat("odd_name_histories")
+		}
 		ops := make([]FsOp, ln)
-		gen.Reset()
+		g.Reset()
+		// a second instance is driven along while the history is drawn, only to know which files and
+		// directories exist at each point (steering; the history is then run and judged on a fresh one)
+		shadow, err := memfs.NewFilespace()
+		must(err)
+		shadowEnv := &c01Env{dead: true} // listings of the shadow are not probed; only the depth guard of c01FS is wanted
 		for j := range ops {
-			ops[j] = gen.Op(r)
+			ops[j] = g.Op(r)
+			var files, dirs [][]string
+			if shadow != nil {
+				w, ok, _ := walkFs(c01FS{innerFS: shadow, env: shadowEnv})
+				if !ok {
+					shadow = nil
+				}
+				for _, e := range w {
+					if e.IsDir {
+						dirs = append(dirs, e.Path)
+					} else {
+						files = append(files, e.Path)
+					}
+				}
+			}
+			c01Tweak(r, g, &ops[j], ln <= 8, files, dirs)
+			if shadow != nil {
+				if so := execFsOp(shadow, ops[j]); so.Kind == "hang" || so.Kind == "panic" {
+					shadow = nil
+				}
+			}
 		}
 		root, err := memfs.NewFilespace()
 		must(err)
 		ref := NewRefFS()
-		hr := runHistory(root, ref, memPolicy, ops, false)
+		hr := runHistory(r, root, ref, memPolicy, ops, false, o.Stats)
 		muts := 0
 		for j, out := range hr.outs {
 			o.Stat("op_" + ops[j].Kind)
@@ -184,6 +571,9 @@ func runC01(o *Out, rng *RNG, tier string, replay string) {
 			}
 			if isMutating(ops[j].Kind) && out.Kind == "unit" {
 				muts++
+			}
+			if out.Kind == "hang" {
+				hangs++
 			}
 		}
 		desc := hr.desc()
@@ -201,6 +591,311 @@ func runC01(o *Out, rng *RNG, tier string, replay string) {
 		}
 	}
 	o.Extra["listing_snapshot_probes"] = aliasList
+	if hangs < 3 {
+		next := c01Sweep(o, rng.Fork(), tier, only, n)
+		next = c01WideDeep(o, rng.Fork(), tier, only, next)
+		c01Sizes(o, rng.Fork(), only, next)
+	}
+}
+
+// c01Sizes: "all byte contents" along the size axis, with the snapshot clause on every slice: for
+// each size around the powers of two up to 100 001 bytes a file is written (WriteFile, or a stream
+// in one / two chunks; on the root or through a held view), read back (ReadFile and Reader), copied,
+// rewritten shorter through a stream, the copy rewritten longer - with ReadFile of both after every
+// change. runHistory keeps every returned slice (must not change while the history goes on) and
+// overwrites them all at the end (the tree must not change). L2 only: contents of this size are not
+// written out for Coq.
+func c01Sizes(o *Out, rng *RNG, only, base int) {
+	sizes := []int{0, 1, 2, 63, 64, 65, 255, 256, 257, 511, 512, 513, 1023, 1024, 1025, 2047, 2048, 2049, 4095, 4096, 4097, 8193, 32768, 32769, 65537, 100001}
+	idx := base
+	for _, n := range sizes {
+		for variant := 0; variant < 4; variant++ {
+			idx++
+			r := rng.Fork()
+			if only >= 0 && idx != only {
+				continue
+			}
+			var view []string
+			p, q := "d/p", "e/q"
+			if variant >= 2 {
+				view, p, q = []string{"v"}, "p", "sub/q"
+			}
+			data := randBytes(r, n)
+			var first FsOp
+			switch {
+			case variant%2 == 0:
+				first = FsOp{Kind: "WriteFile", P: p, Data: data, View: view}
+			case n%2 == 0:
+				first = FsOp{Kind: "Writer", P: p, Chunks: [][]byte{data}, View: view}
+			default:
+				first = FsOp{Kind: "Writer", P: p, Chunks: [][]byte{data[:n/2], data[n/2:]}, View: view}
+			}
+			ops := []FsOp{
+				first,
+				{Kind: "ReadFile", P: p, View: view},
+				{Kind: "Reader", P: p, Bufs: []int{n/3 + 1, 200000, 200000}, View: view},
+				{Kind: "Lstat", P: p, View: view},
+				{Kind: "CopyFile", P: p, Q: q, View: view},
+				{Kind: "ReadFile", P: q, View: view},
+				{Kind: "Writer", P: p, Chunks: [][]byte{randBytes(r, n/2)}, View: view},
+				{Kind: "ReadFile", P: p, View: view},
+				{Kind: "ReadFile", P: q, View: view},
+				{Kind: "WriteFile", P: q, Data: randBytes(r, n+1), View: view},
+				{Kind: "ReadFile", P: q, View: view},
+				{Kind: "ReadFile", P: p, View: view},
+				{Kind: "Copy", P: "", Q: "all", View: view},
+				{Kind: "ReadFile", P: "all/" + q, View: view},
+			}
+			root, err := memfs.NewFilespace()
+			must(err)
+			hr := runHistory(r, root, NewRefFS(), memPolicy, ops, false, o.Stats)
+			o.Stat("size_histories")
+			if hr.fail != "" {
+				for j := range ops { // the replay names the sizes, not the bytes
+					ops[j].Data, ops[j].Chunks = nil, nil
+				}
+				o.Fail("plain_tree", fmt.Sprintf("content of %d bytes: %s", n, hr.fail), hr.sig,
+					map[string]interface{}{"index": idx, "size": n, "variant": variant, "ops": descOps(ops, nil)})
+			}
+			o.CountEval(fmt.Sprintf("size|%d|%d", n, variant), true)
+		}
+	}
+}
+
+// c01WideDeep: the sizes the random histories never reach - one directory with 20-140 entries (files
+// and directories; entries removed at the front, in the middle and at the end; listed, deep-copied,
+// the copy changed, the original removed recursively) and one chain of 12-33 nested directories
+// (addressed whole, through 2-6 held views that split it, copied, cut in the middle). L2 on every
+// step; as a Coq case with one tree walk in 16 (a tree of 140 entries is written out per walk).
+func c01WideDeep(o *Out, rng *RNG, tier string, only, base int) (last int) {
+	rounds := 6
+	if tier == "thorough" {
+		rounds = 40
+	}
+	names := defaultFsGen().Names
+	for k := 0; k < rounds; k++ {
+		r := rng.Fork()
+		idx := base + 1 + k
+		if only >= 0 && idx != only {
+			continue
+		}
+		var ops []FsOp
+		var view []string
+		if k%2 == 0 { // wide
+			w := 20 + r.Intn(121)
+			if k == 0 {
+				w = 65
+			}
+			d := names[r.Intn(len(names))]
+			if r.Bool() {
+				view = []string{names[r.Intn(len(names))]}
+			}
+			ent := func(i int) string { return fmt.Sprintf("%s/e%d", d, i) }
+			for i := 0; i < w; i++ {
+				if i%3 == 2 {
+					ops = append(ops, FsOp{Kind: "MkdirAll", P: ent(i), View: view})
+				} else {
+					ops = append(ops, FsOp{Kind: "WriteFile", P: ent(i), Data: []byte{byte(i), byte(i >> 8)}[:i%3+1], View: view})
+				}
+			}
+			ops = append(ops, FsOp{Kind: "ReadDir", P: d, View: view})
+			for _, i := range []int{0, w - 1, w / 2, 1, r.Intn(w), r.Intn(w), 32, 31, 33} {
+				if i < w {
+					ops = append(ops, FsOp{Kind: "Remove", P: ent(i), View: view}, FsOp{Kind: "IsExist", P: ent(i), View: view})
+				}
+			}
+			ops = append(ops, FsOp{Kind: "ReadDir", P: d, View: view},
+				FsOp{Kind: "WriteFile", P: ent(w), Data: []byte("late"), View: view},
+				FsOp{Kind: "CopyDir", P: d, Q: "copy/of", View: view},
+				FsOp{Kind: "ReadDir", P: "copy/of", View: view},
+				FsOp{Kind: "WriteFile", P: "copy/of/e2/inside", Data: []byte("c"), View: view},
+				FsOp{Kind: "Remove", P: "copy/of/" + fmt.Sprintf("e%d", w), View: view},
+				FsOp{Kind: "ReadDir", P: d, View: view},
+				FsOp{Kind: "Lstat", P: ent(w), View: view},
+				FsOp{Kind: "RemoveAll", P: d, View: view},
+				FsOp{Kind: "ReadDir", P: "copy/of", View: view},
+				FsOp{Kind: "ReadDir", P: "", View: view})
+			o.Stat("wide_histories")
+		} else { // deep
+			depth := []int{12, 20, 33}[r.Intn(3)]
+			comps := make([]string, depth)
+			for i := range comps {
+				comps[i] = names[r.Intn(len(names))]
+			}
+			whole := strings.Join(comps, "/")
+			cut := 1 + r.Intn(depth-2)
+			var chain []string // the same chain, split into views
+			at := 0
+			for v := 2 + r.Intn(5); v > 0 && at < depth-1; v-- {
+				n := 1 + r.Intn((depth-1-at+v-1)/v)
+				chain = append(chain, strings.Join(comps[at:at+n], "/"))
+				at += n
+			}
+			rest := strings.Join(comps[at:], "/")
+			ops = []FsOp{
+				{Kind: "MkdirAll", P: whole},
+				{Kind: "WriteFile", P: whole + "/f", Data: []byte("deep")},
+				{Kind: "ReadFile", P: "./" + strings.Join(comps, "//") + "/x/../f"},
+				{Kind: "ReadFile", P: rest + "/f", View: chain},
+				{Kind: "Writer", P: rest + "/g", Chunks: [][]byte{[]byte("st"), []byte("ream")}, View: chain},
+				{Kind: "ReadDir", P: rest, View: chain},
+				{Kind: "Lstat", P: whole + "/g"},
+				{Kind: "CopyDir", P: comps[0], Q: "copy/" + comps[0]},
+				{Kind: "ReadFile", P: "copy/" + whole + "/g"},
+				{Kind: "Remove", P: strings.Join(comps[:cut], "/")},
+				{Kind: "RemoveAll", P: strings.Join(comps[:cut+1], "/")},
+				{Kind: "IsExist", P: whole},
+				{Kind: "IsDir", P: strings.Join(comps[:cut], "/")},
+				{Kind: "ReadFile", P: rest + "/f", View: chain},
+				{Kind: "WriteFile", P: rest + "/f", Data: []byte("again"), View: chain},
+				{Kind: "ReadFile", P: whole + "/f"},
+				{Kind: "ReadFile", P: "copy/" + whole + "/f"},
+				{Kind: "Copy", P: "copy", Q: whole + "/back"},
+				{Kind: "RemoveAll", P: "copy"},
+				{Kind: "ReadFile", P: whole + "/back/" + whole + "/f"},
+			}
+			o.Stat("deep_histories")
+		}
+		for j := range ops {
+			ops[j].fillJSON()
+		}
+		root, err := memfs.NewFilespace()
+		must(err)
+		hr := runHistory(r, root, NewRefFS(), memPolicy, ops, false, o.Stats)
+		desc := hr.desc()
+		desc["index"] = idx
+		if hr.fail != "" {
+			o.Fail("plain_tree", "wide/deep history: "+hr.fail, hr.sig, desc)
+		}
+		for j := range hr.walks {
+			if j%16 != 15 {
+				hr.walks[j] = nil
+			}
+		}
+		o.AddCase(hr.coqCase(), desc, histKey(ops), true)
+	}
+	return base + rounds
+}
+
+// c01Sweep: the quantifier "all relative path spellings" on a small scope, exhaustively: every path
+// of up to maxSeg segments over {a, b, ., .., ""} is the argument of every operation kind (for the
+// copies: once as source, once as destination), alternately on the root and through the view "a",
+// starting from the tree {a/, a/b/, a/f, b (a FILE)}: one history per path, the kinds in an order
+// that rotates with the path, IsDir(path) after each. All of them are judged by the plain-tree
+// reference; one in 6 is also a Coq case.
+func c01Sweep(o *Out, rng *RNG, tier string, only, base int) (last int) {
+	maxSeg := 4
+	if tier == "thorough" {
+		maxSeg = 5
+	}
+	alphabet := []string{"a", "b", ".", "..", ""}
+	var paths []string
+	var rec func(prefix []string)
+	rec = func(prefix []string) {
+		if len(prefix) > 0 {
+			paths = append(paths, strings.Join(prefix, "/"))
+		}
+		if len(prefix) == maxSeg {
+			return
+		}
+		for _, s := range alphabet {
+			rec(append(append([]string{}, prefix...), s))
+		}
+	}
+	rec(nil)
+	setup := []FsOp{
+		{Kind: "MkdirAll", P: "a/b"},
+		{Kind: "WriteFile", P: "a/f", Data: []byte("F")},
+		{Kind: "WriteFile", P: "b", Data: []byte("B")},
+	}
+	kinds := append(append([]string{}, fsOpKinds...), "Copy>", "CopyDir>", "CopyFile>") // ">": the swept path is the destination
+	type sweepJob struct {
+		idx int
+		ops []FsOp
+		rng *RNG
+		hr  histResult
+	}
+	var jobs []*sweepJob
+	idx := base
+	for pi, p := range paths {
+		idx++
+		r := rng.Fork() // before the replay filter: the same stream of choices with and without it
+		if only >= 0 && idx != only {
+			continue
+		}
+		ops := append([]FsOp{}, setup...)
+		for kj := range kinds {
+			ki := (kj + pi) % len(kinds) // another order of the kinds for every path: the tree they meet differs
+			k := kinds[ki]
+			op := FsOp{Kind: strings.TrimSuffix(k, ">"), P: p}
+			switch op.Kind {
+			case "Copy", "CopyDir":
+				op.Q = fmt.Sprintf("n%d/m", kj)
+				if strings.HasSuffix(k, ">") {
+					op.P, op.Q = "a", p
+				}
+			case "CopyFile":
+				op.Q = fmt.Sprintf("n%d/m", kj)
+				if strings.HasSuffix(k, ">") {
+					op.P, op.Q = "a/f", p
+				}
+			case "WriteFile":
+				op.Data = []byte("w")
+			case "Writer":
+				op.Chunks = [][]byte{[]byte("w")}
+			case "Reader":
+				op.Bufs = []int{2, 1000}
+			}
+			if (pi+ki)%2 == 1 {
+				op.View = []string{"a"}
+				if op.Kind == "CopyFile" && strings.HasSuffix(k, ">") {
+					op.P = "f"
+				} else if strings.HasSuffix(k, ">") {
+					op.P = "b"
+				}
+			}
+			ops = append(ops, op, FsOp{Kind: "IsDir", P: p, View: op.View})
+		}
+		for j := range ops {
+			ops[j].fillJSON()
+		}
+		jobs = append(jobs, &sweepJob{idx: idx, ops: ops, rng: r})
+	}
+	// the histories are independent of one another: run on 8 workers, reported in index order
+	var wg sync.WaitGroup
+	workerStats := make([]map[string]int, 8)
+	for w := range workerStats {
+		workerStats[w] = map[string]int{}
+		wg.Add(1)
+		go func(w int) {
+			defer wg.Done()
+			for j := w; j < len(jobs); j += len(workerStats) {
+				root, err := memfs.NewFilespace()
+				must(err)
+				jobs[j].hr = runHistory(jobs[j].rng, root, NewRefFS(), memPolicy, jobs[j].ops, false, workerStats[w])
+			}
+		}(w)
+	}
+	wg.Wait()
+	for _, st := range workerStats {
+		for k, v := range st {
+			o.Stats[k] += v
+		}
+	}
+	for _, jb := range jobs {
+		o.Stat("sweep_histories")
+		desc := jb.hr.desc()
+		desc["index"] = jb.idx
+		if jb.hr.fail != "" {
+			o.Fail("plain_tree", "spelling sweep: "+jb.hr.fail, jb.hr.sig, desc)
+		}
+		if jb.idx%6 == 0 || only >= 0 {
+			o.AddCase(jb.hr.coqCase(), desc, histKey(jb.ops), true)
+		} else {
+			o.CountEval(histKey(jb.ops), true)
+		}
+	}
+	return idx
 }
 
 // listingSnapshotProbe: create k files in a directory, take a listing, remove/add siblings, and
